@@ -26,7 +26,9 @@ def proj(o):
             "dl": [[int(k), list(v)] for k, v in sorted(o.dl.items())], "s": sorted(o.s),
             "child": {"value": o.child.value, "items": list(o.child.items),
                       "grid": [list(g) if type(g) is list else [777] for g in o.child.grid]}, "tmp": o.tmp,
-            "ro": 0 if ro is Undefined or ro == 0 else ro, "kids": kids_pattern(o)}
+            "ro": 0 if ro is Undefined or ro == 0 else ro, "kids": kids_pattern(o),
+            "hasx": 1 if "extra" in o._instance_traits() else 0,
+            "xval": (lambda x: x if type(x) is int else BAD)(d.get("extra", 0))}
 
 
 def kids_pattern(o):
@@ -96,6 +98,12 @@ def step(o, dyn, op, v):
             o.child.value = cv
         elif op == "child_items":
             o.child.items.append(cv)
+        elif op == "addx":
+            from traits.api import Int
+            if "extra" not in o._instance_traits():
+                o.add_trait("extra", Int)
+        elif op == "extra_assign":
+            o.extra = cv
         elif op == "grid_append":
             o.cgrid.append([v])
         elif op == "grid_inner":
@@ -118,7 +126,7 @@ def step(o, dyn, op, v):
 
 
 OPS = ["kids_child", "kids_new", "kids_dup", "n_assign", "n_assign", "tmp_assign", "ro_assign", "xs_append", "xs_append", "xs_assign", "nested_append", "nested_inner", "dl_set",
-       "dl_inner", "s_add", "child_value", "child_items", "grid_append", "grid_inner"]
+       "dl_inner", "s_add", "child_value", "child_items", "grid_append", "grid_inner", "addx", "extra_assign"]
 
 
 def run_history(rnd, steps, t):
@@ -194,7 +202,8 @@ def run(rep, tier, seed):
                         rep.sample(r)
         rep.case(n)
         judge.judge(rep, "Trace_Persist", "Trace_Persist", "Trace_Persist.cfg", trace, n,
-                    sig_of=lambda rec, cl: "C14:judge:%s%s:%s" % (rec["op"], ":" + rec["kind"] if rec["kind"] else "", "+".join(cl)))
+                    sig_of=lambda rec, cl: ("C14:F22:trait-added-with-add_trait-not-copied" if cl == ["KF22"] else
+                                            "C14:judge:%s%s:%s" % (rec["op"], ":" + rec["kind"] if rec["kind"] else "", "+".join(cl))))
         # (c) trait definitions
         vc.world()
         dump = os.path.join(work, "cases")
